@@ -17,12 +17,6 @@ def Fresh (s : Store) : Prop := ∀ p d, s p = some (.dir d) → freshDir d
 /-- no bytecode file anywhere -/
 def NoPyc (s : Store) : Prop := ∀ p d, s p = some (.dir d) → d.pyc = none
 
-/-- every recorded second is before `T` -/
-def boundDir (T : Nat) (d : Dir) : Prop :=
-  (∀ c, d.pyc = some c → c.mtime < T) ∧ (∀ m mt, d.man = some (m, mt) → mt < T)
-
-def Bound (T : Nat) (s : Store) : Prop := ∀ p d, s p = some (.dir d) → boundDir T d
-
 theorem fresh_of_noPyc {s : Store} (h : NoPyc s) : Fresh s := by
   intro p d hp c m mt hc
   rw [h p d hp] at hc
@@ -57,27 +51,6 @@ theorem fresh_del {s : Store} (h : Fresh s) (p : Path) : Fresh (s.del p) := by
   split at hq
   · cases hq
   · exact h q d hq
-
-theorem bound_set {T : Nat} {s : Store} (h : Bound T s) (p : Path) (e : Entry) (he : ∀ d, e = .dir d → boundDir T d) :
-    Bound T (s.set p e) := by
-  intro q d hq
-  rw [set_get] at hq
-  split at hq
-  · cases hq; exact he d rfl
-  · exact h q d hq
-
-theorem bound_del {T : Nat} {s : Store} (h : Bound T s) (p : Path) : Bound T (s.del p) := by
-  intro q d hq
-  rw [del_get] at hq
-  split at hq
-  · cases hq
-  · exact h q d hq
-
-theorem boundDir_mono {T T' : Nat} (hle : T ≤ T') {d : Dir} (h : boundDir T d) : boundDir T' d :=
-  ⟨fun c hc => Nat.lt_of_lt_of_le (h.1 c hc) hle, fun m mt hm => Nat.lt_of_lt_of_le (h.2 m mt hm) hle⟩
-
-theorem bound_mono {T T' : Nat} (hle : T ≤ T') {s : Store} (h : Bound T s) : Bound T' s :=
-  fun p d hp => boundDir_mono hle (h p d hp)
 
 theorem noPyc_set {s : Store} (h : NoPyc s) (p : Path) (e : Entry) (he : ∀ d, e = .dir d → d.pyc = none) :
     NoPyc (s.set p e) := by
@@ -157,27 +130,6 @@ theorem loadDir_fresh (bc : Bool) (d : Dir) (h : freshDir d) : freshDir (loadDir
       · exact hnew
       · exact h
 
-theorem loadDir_bound (bc : Bool) (T : Nat) (d : Dir) (h : boundDir T d) : boundDir T (loadDir bc d).1 := by
-  unfold loadDir
-  split
-  · exact h
-  · rename_i m mt hm
-    have hnew : boundDir T { d with pyc := some ⟨mt, m.size, m⟩ } := by
-      refine ⟨?_, h.2⟩
-      intro c hc
-      simp only at hc
-      cases hc
-      exact h.2 m mt hm
-    split
-    · split
-      · exact h
-      · split
-        · exact hnew
-        · exact h
-    · split
-      · exact hnew
-      · exact h
-
 theorem loadDir_noPyc (d : Dir) (h : d.pyc = none) : (loadDir false d).1 = d := by
   unfold loadDir
   split
@@ -225,17 +177,6 @@ theorem readAt_fresh (bc : Bool) (s : Store) (p : Path) (h : Fresh s) : Fresh (r
     intro d' e
     cases e
     exact loadDir_fresh bc d (h p d hd)
-
-theorem readAt_bound (bc : Bool) (T : Nat) (s : Store) (p : Path) (h : Bound T s) : Bound T (readAt bc s p).1 := by
-  unfold readAt
-  split
-  · exact h
-  · exact h
-  · rename_i d hd
-    apply bound_set h
-    intro d' e
-    cases e
-    exact loadDir_bound bc T d (h p d hd)
 
 theorem readAt_noPyc (s : Store) (p : Path) (h : NoPyc s) : NoPyc (readAt false s p).1 := by
   unfold readAt
@@ -310,25 +251,6 @@ theorem copyTo_noPyc (s : Store) (src dst : Path) (t : Nat) (m : SM) (h : NoPyc 
     exact h src d hd
   · exact h
 
-theorem copyTo_bound (T : Nat) (s : Store) (src dst : Path) (t : Nat) (m : SM) (h : Bound T s) (ht : t < T) :
-    Bound T (copyTo s src dst t m).1 := by
-  unfold copyTo
-  split
-  · split
-    · apply bound_set h; intro d e; cases e
-    · apply bound_set h
-      intro d e
-      cases e
-      refine ⟨?_, ?_⟩
-      · intro c hc; cases hc
-      · intro m' mt hm; cases hm; exact ht
-  · rename_i d hd
-    apply bound_set h
-    intro d' e
-    cases e
-    exact h src d hd
-  · exact h
-
 /-- `install` at the file level against the logical level, from a fresh store -/
 theorem installAt_refines (bc : Bool) (s : Store) (src dst : Path) (t : Nat) (h : Fresh s) :
     (installAt bc s src dst t).2 = (lstep (abs s) (.install src dst t)).2 ∧
@@ -374,7 +296,7 @@ theorem installAt_refines (bc : Bool) (s : Store) (src dst : Path) (t : Nat) (h 
 
 /-! ### one step and whole histories -/
 
-theorem step_refines (bc : Bool) (s : Store) (op : Op) (h : Fresh s) (hok : okOp s op = true) :
+theorem step_refines (bc : Bool) (s : Store) (op : Op) (h : Fresh s) :
     (step bc s op).2 = (lstep (abs s) op).2 ∧ abs (step bc s op).1 = (lstep (abs s) op).1 ∧ Fresh (step bc s op).1 := by
   cases op with
   | write p m t =>
@@ -397,15 +319,8 @@ theorem step_refines (bc : Bool) (s : Store) (op : Op) (h : Fresh s) (hok : okOp
         apply fresh_set h
         intro d' e
         cases e
-        intro c m' mt hc hm hmt hsz
-        simp only at hc hm
-        cases hm
-        simp only [okOp, hs, hc] at hok
-        simp only [Bool.or_eq_true, Bool.not_eq_true', Bool.and_eq_false_iff, beq_eq_false_iff_ne, beq_iff_eq] at hok
-        rcases hok with (h1 | h1) | h1
-        · exact absurd hmt h1
-        · exact absurd hsz h1
-        · exact h1
+        intro c m' mt hc
+        cases hc
   | create p m tr =>
     simp only [step, lstep]
     have hp : (abs s) p = (s p).map absE := rfl
@@ -434,201 +349,19 @@ theorem step_refines (bc : Bool) (s : Store) (op : Op) (h : Fresh s) (hok : okOp
     | error e => exact ⟨rfl, ha, hf⟩
   | remove p => exact ⟨rfl, abs_del _ _, fresh_del h p⟩
 
-/-- **refinement**: from a fresh store, as long as no write makes a cached module stale, the file-level machine
-observes exactly what the logical store `Path → Content` observes -/
-theorem run_refines (bc : Bool) (h : List Op) : ∀ (s : Store), Fresh s → okRun bc s h = true →
+/-- **refinement**: from a fresh store the file-level machine (with the repaired `Manifest.write`) observes exactly what
+the logical store `Path → Content` observes — for every history, clock and bytecode setting -/
+theorem run_refines (bc : Bool) (h : List Op) : ∀ (s : Store), Fresh s →
     (run bc s h).2 = (lrun (abs s) h).2 ∧ abs (run bc s h).1 = (lrun (abs s) h).1 := by
   induction h with
-  | nil => intro s _ _; exact ⟨rfl, rfl⟩
+  | nil => intro s _; exact ⟨rfl, rfl⟩
   | cons op h ih =>
-    intro s hf hok
-    simp only [okRun, Bool.and_eq_true] at hok
-    obtain ⟨h1, h2, h3⟩ := step_refines bc s op hf hok.1
-    obtain ⟨i1, i2⟩ := ih _ h3 hok.2
+    intro s hf
+    obtain ⟨h1, h2, h3⟩ := step_refines bc s op hf
+    obtain ⟨i1, i2⟩ := ih _ h3
     simp only [run, lrun]
     rw [h1, i1, i2, h2]
     exact ⟨rfl, rfl⟩
-
-/-! ### without bytecode files nothing can be stale -/
-
-theorem step_noPyc (s : Store) (op : Op) (h : NoPyc s) : NoPyc (step false s op).1 := by
-  cases op with
-  | write p m t =>
-    simp only [step]
-    cases hs : s p with
-    | none => apply noPyc_set h; intro d e; cases e; rfl
-    | some e =>
-      cases e with
-      | zip m0 tr => exact h
-      | dir d => apply noPyc_set h; intro d' e; cases e; exact h p d hs
-  | create p m tr =>
-    simp only [step]
-    cases hs : s p with
-    | none => apply noPyc_set h; intro d e; cases e
-    | some e =>
-      cases e with
-      | zip m0 tr0 => apply noPyc_set h; intro d e; cases e
-      | dir d => exact h
-  | install src dst t =>
-    simp only [step, installAt]
-    have h1 := readAt_noPyc s src h
-    generalize readAt false s src = r1 at h1
-    obtain ⟨s1, res1⟩ := r1
-    cases res1 with
-    | error e => exact h1
-    | ok m =>
-      simp only
-      split
-      · exact h1
-      · have h2 := readAt_noPyc s1 dst h1
-        generalize readAt false s1 dst = r2 at h2
-        obtain ⟨s2, res2⟩ := r2
-        cases res2 with
-        | error e => exact copyTo_noPyc s2 src dst t m h2
-        | ok m' =>
-          simp only
-          split
-          · exact h2
-          · exact copyTo_noPyc s2 src dst t m h2
-  | read p =>
-    simp only [step]
-    have h1 := readAt_noPyc s p h
-    generalize readAt false s p = r at h1
-    obtain ⟨s1, res⟩ := r
-    cases res <;> exact h1
-  | remove p => exact noPyc_del h p
-
-theorem okOp_noPyc (s : Store) (op : Op) (h : NoPyc s) : okOp s op = true := by
-  cases op with
-  | write p m t =>
-    simp only [okOp]
-    cases hs : s p with
-    | none => rfl
-    | some e =>
-      cases e with
-      | zip m0 tr => rfl
-      | dir d => simp only [h p d hs]
-  | _ => rfl
-
-theorem okRun_noPyc (h : List Op) : ∀ s : Store, NoPyc s → okRun false s h = true := by
-  induction h with
-  | nil => intro _ _; rfl
-  | cons op h ih =>
-    intro s hs
-    simp only [okRun, Bool.and_eq_true]
-    exact ⟨okOp_noPyc s op hs, ih _ (step_noPyc s op hs)⟩
-
-/-! ### with bytecode files: a clock that ticks between stamping operations -/
-
-theorem okOp_bound (T : Nat) (s : Store) (op : Op) (h : Bound T s) (ht : ∀ t, opTime op = some t → T ≤ t) :
-    okOp s op = true := by
-  cases op with
-  | write p m t =>
-    simp only [okOp]
-    cases hs : s p with
-    | none => rfl
-    | some e =>
-      cases e with
-      | zip m0 tr => rfl
-      | dir d =>
-        simp only
-        cases hc : d.pyc with
-        | none => rfl
-        | some c =>
-          simp only
-          have h1 := (h p d hs).1 c hc
-          have h2 := ht t rfl
-          have : (c.mtime == t) = false := by
-            simp only [beq_eq_false_iff_ne]; omega
-          simp [this]
-  | _ => rfl
-
-theorem step_bound (bc : Bool) (T : Nat) (s : Store) (op : Op) (h : Bound T s) (ht : ∀ t, opTime op = some t → t < T) :
-    Bound T (step bc s op).1 := by
-  cases op with
-  | write p m t =>
-    simp only [step]
-    have htt := ht t rfl
-    cases hs : s p with
-    | none =>
-      apply bound_set h
-      intro d e
-      cases e
-      refine ⟨?_, ?_⟩
-      · intro c hc; cases hc
-      · intro m' mt hm; cases hm; exact htt
-    | some e =>
-      cases e with
-      | zip m0 tr => exact h
-      | dir d =>
-        apply bound_set h
-        intro d' e
-        cases e
-        refine ⟨(h p d hs).1, ?_⟩
-        intro m' mt hm
-        cases hm
-        exact htt
-  | create p m tr =>
-    simp only [step]
-    cases hs : s p with
-    | none => apply bound_set h; intro d e; cases e
-    | some e =>
-      cases e with
-      | zip m0 tr0 => apply bound_set h; intro d e; cases e
-      | dir d => exact h
-  | install src dst t =>
-    have htt := ht t rfl
-    simp only [step, installAt]
-    have h1 := readAt_bound bc T s src h
-    generalize readAt bc s src = r1 at h1
-    obtain ⟨s1, res1⟩ := r1
-    cases res1 with
-    | error e => exact h1
-    | ok m =>
-      simp only
-      split
-      · exact h1
-      · have h2 := readAt_bound bc T s1 dst h1
-        generalize readAt bc s1 dst = r2 at h2
-        obtain ⟨s2, res2⟩ := r2
-        cases res2 with
-        | error e => exact copyTo_bound T s2 src dst t m h2 htt
-        | ok m' =>
-          simp only
-          split
-          · exact h2
-          · exact copyTo_bound T s2 src dst t m h2 htt
-  | read p =>
-    simp only [step]
-    have h1 := readAt_bound bc T s p h
-    generalize readAt bc s p = r at h1
-    obtain ⟨s1, res⟩ := r
-    cases res <;> exact h1
-  | remove p => exact bound_del h p
-
-theorem okRun_ticking (bc : Bool) (h : List Op) : ∀ (T : Nat) (s : Store), Bound T s → ticking T h = true →
-    okRun bc s h = true := by
-  induction h with
-  | nil => intro _ _ _ _; rfl
-  | cons op h ih =>
-    intro T s hb ht
-    simp only [okRun, Bool.and_eq_true]
-    simp only [ticking] at ht
-    cases hot : opTime op with
-    | none =>
-      rw [hot] at ht
-      refine ⟨okOp_bound T s op hb (by intro t e; rw [hot] at e; cases e), ?_⟩
-      exact ih T _ (step_bound bc T s op hb (by intro t e; rw [hot] at e; cases e)) ht
-    | some t =>
-      rw [hot] at ht
-      simp only [Bool.and_eq_true, decide_eq_true_eq] at ht
-      refine ⟨okOp_bound T s op hb (by intro t' e; rw [hot] at e; cases e; exact ht.1), ?_⟩
-      apply ih (t + 1) _ _ ht.2
-      apply step_bound bc (t + 1) s op (bound_mono (by omega) hb)
-      intro t' e
-      rw [hot] at e
-      cases e
-      omega
 
 /-! ### the logical store is read-your-writes -/
 
@@ -777,5 +510,40 @@ theorem lstep_install (s : LStore) (src dst : Path) (t : Nat) (m : SM) (tr : Opt
           injection h with h1 h2
           subst h1; subst h2
           exact ⟨rfl, ⟨_, hc.1, Or.inl rfl⟩, hc.2.2.symm, fun _ => rfl⟩
+
+/-! ### the already-installed test -/
+
+/-- `install` of the code that exists is the logical install with full-manifest equality as the guard -/
+theorem lstep_install_guard (s : LStore) (src dst : Path) (t : Nat) : lstep s (.install src dst t) = linstallG meq s src dst := rfl
+
+/-- `Manifest.__eq__` holds exactly when all four fields agree -/
+theorem meq_fields (a b : SM) : meq a b = true ↔
+    a.name = b.name ∧ Keys.vcmp a.version b.version = .eq ∧ a.package = b.package ∧ modEq a.modules b.modules = true := by
+  simp [meq, and_assoc]
+
+/-- the target held a manifest that differs from the package's in some field: the package is installed — the target
+then holds exactly the package's manifest and content, and those are the components loaded -/
+theorem lstep_install_differs (s : LStore) (src dst : Path) (t : Nat) (m m' : SM) (tr : Option Tree)
+    (h : (lstep s (.install src dst t)).2 = .installed m tr) (hsd : src ≠ dst) (hd : lman (s dst) = some m')
+    (hne : meq m' m = false) :
+    tr = ltree (s src) ∧ lman ((lstep s (.install src dst t)).1 dst) = some m ∧
+    ltree ((lstep s (.install src dst t)).1 dst) = ltree (s src) := by
+  cases hsrc : lman (s src) with
+  | none => simp only [lstep, lread, hsrc] at h; cases h
+  | some m0 =>
+    have hc := lcopy_result s src dst m0 hsrc
+    have hm : m0 = m := by
+      by_cases he : meq m' m0 = true
+      · simp only [lstep, lread, hsrc, hsd, hd, he, if_false, if_true] at h
+        injection h with h1 _
+      · have he' : meq m' m0 = false := by simpa using he
+        simp only [lstep, lread, hsrc, hsd, hd, he', Bool.false_eq_true, if_false] at h
+        rw [hc.2.1] at h
+        injection h with h1 _
+    subst hm
+    simp only [lstep, lread, hsrc, hsd, hd, hne, Bool.false_eq_true, if_false] at h ⊢
+    rw [hc.2.1] at h
+    injection h with _ h2
+    exact ⟨h2.symm, hc.1, hc.2.2⟩
 
 end ForML.Store
